@@ -386,10 +386,17 @@ func runC04(c *Ctx) {
 	for i := range big {
 		big[i] = system.Integer(i + 1)
 	}
+	// the wall-clock budget of one evaluation is a guard against hangs, not part of the property: eight goroutines on one
+	// processor (under the race detector in the thorough tier, on a loaded machine) can exceed ten seconds on the quadratic
+	// jobs.  A job that runs out of time is evaluated again with a budget that only a hang exceeds.
 	evalJob := func(j job) string {
-		o := safeEval(func() (system.Collection, error) {
+		run := func() (system.Collection, error) {
 			return j.e.Evaluate([]fhir.Resource{resources[j.ri]}, evalopts.EnvVariable("v", shared), evalopts.EnvVariable("big", big), evalopts.OverrideTime(fixedNow))
-		})
+		}
+		o := safeEval(run)
+		if o.TimedOut {
+			o = safeEvalWithin(15*time.Minute, run)
+		}
 		return canonOutcome(o, nil)
 	}
 	want := make([]string, len(jobs))
